@@ -382,7 +382,8 @@ _STRIP_ENTRY = ("fn", "sfn")
 
 def _strip(ev):
     keep = {}
-    for k in ("op", "a", "r", "sv", "dg", "nw", "calls", "tail", "beyond"):
+    # (device-call counts are not part of the property: only results, listings and image bytes are compared)
+    for k in ("op", "a", "r", "sv", "dg", "tail", "beyond"):
         if k in ev:
             keep[k] = ev[k]
     r = keep.get("r")
@@ -390,6 +391,7 @@ def _strip(ev):
         r = dict(r)
         r.pop("labels", None)
         r.pop("msg", None)
+        r.pop("calls", None)
         if isinstance(r.get("ents"), list):
             r["ents"] = [{k: v for k, v in x.items() if k not in _STRIP_ENTRY} for x in r["ents"]]
         keep["r"] = r
